@@ -33,11 +33,18 @@ def run(ctx, out):
             for k in list(st):
                 if rng.random() < 0.15 and k != "result_code":
                     del st[k]
-            queues = {"0622": [[P.intermediate(), P.status(receipt_no=receipt, result_code=0), P.completion()]],
+            resv = [P.intermediate(), P.status(receipt_no=receipt, result_code=0), P.completion()]
+            if rng.random() < 0.35:
+                # the terminal reports a receipt number, then another one (the one the reservation completes under),
+                # then a status without receipt number: the latest reported number is the reservation's
+                other = (receipt % 9999) + 1
+                resv = [P.status(receipt_no=other, result_code=0), P.intermediate(), P.status(receipt_no=receipt, result_code=0),
+                        P.status(result_code=0), P.completion()]
+            queues = {"0622": [resv],
                       "0623": [[P.status(**st), P.print_line("receipt"), P.completion()]]}
             cases.append((cfg, ["new", f"begin:{tok(token)}", f"commit:{tok(token)}:{final}"], queues, None, None))
     ops, impl = run_histories(ctx, out, cases, "begin + commit")
     out.rule = ("pre-authorisation amounts {0, 1, 99, 100, 2500, 10^6, 10^11, 10^12-1, random} x final amounts {0, 1, equal, off-by-one either side, 2^32, 2^62, 2^63-1, 2^63, 2^63+1, u64::MAX-1294, u64::MAX-1, u64::MAX, random}; "
-                "currencies SEK/GBP/EUR, CP437 tokens of length 0..60, receipt numbers 1..9999, status fields over their ranges / absent. The reservation and partial-reversal requests on the wire must equal, byte for byte, "
+                "currencies SEK/GBP/EUR, CP437 tokens of length 0..60, receipt numbers 1..9999 (also reported twice with different values: the latest counts), status fields over their ranges / absent. The reservation and partial-reversal requests on the wire must equal, byte for byte, "
                 "the packets assembled from the specification (amount = max(0, pre - final), currency, receipt, AC + token) and the summary must reproduce the reported fields. implementation = model = specification")
     out.samples = [ops[3][:400], {"op": ops[-1][:200], "impl": impl[-1][:300]}]
